@@ -524,6 +524,7 @@ func (c *Collection) writeWithXattrs(
 			c.id, key)
 		var prevCas CAS
 		if err := scan(row, &e.value, &e.isJSON, &prevCas, &e.exp, &e.xattrs, &wasTombstone, &e.revSeqNo); err == nil {
+			e.isDeletion = (wasTombstone == 1) // stays a tombstone unless a body is written below
 			if wasTombstone == 1 && (val != nil && !val.isNil()) {
 				// couchbase server can't perform a cas check on a tombstone so we return ErrKeyExists
 				if ifCas != nil && *ifCas != 0 {
@@ -567,6 +568,7 @@ func (c *Collection) writeWithXattrs(
 				removeUserXattrs(xattrs) // Remove user xattrs when tombstoning doc
 			} else {
 				// Update body:
+				e.isDeletion = false
 				e.isJSON = val.isJSON()
 				e.value, err = val.asByteArray()
 				if err != nil {
